@@ -37,3 +37,27 @@ func zzC14_detached() {
 		symCover("empty-map")
 	}
 }
+
+// CopyData is one atomic step: with a writer that updates key 1 and then key 2, the copy is the map as it was
+// before, between or after the two updates - never the second update without the first
+func zzC14_copydata_snapshot() {
+	m := NewMap[uint64, int]()
+	m.Store(1, 10)
+	m.Store(2, 20)
+	var got map[uint64]int
+	done := 0
+	go func() {
+		m.Store(1, 11)
+		m.Store(2, 21)
+		done++
+	}()
+	go func() {
+		got = m.CopyData()
+		done++
+	}()
+	symWaitUntil(func() bool { return done == 2 })
+	symCover("joined")
+	symAssert(len(got) == 2, "the copy holds both keys")
+	a, b := got[1], got[2]
+	symAssert((a == 10 && b == 20) || (a == 11 && b == 20) || (a == 11 && b == 21), "the copy is a state the map actually was in (an atomic snapshot)")
+}
